@@ -25,16 +25,16 @@ const (
 
 // hrun is one harness execution of a property check.
 type hrun struct {
-	Pkg      string
-	Fn       string
-	Tiers    string   // "q", "t" or "qt"
-	Reach    []string // labels that must be reached on some feasible path
-	MaxSteps int64
-	Bound    string // human-readable bound of this harness
-	NoNative bool   // uses verifrt.StubFunc: cannot run natively
-	Sched    bool   // schedule-dependent: a native run cannot force the interleaving
-	NoWitness bool  // witness paths are not replayed natively (see the bound text)
-	Witnesses int   // number of witness paths replayed natively (default 3)
+	Pkg       string
+	Fn        string
+	Tiers     string   // "q", "t" or "qt"
+	Reach     []string // labels that must be reached on some feasible path
+	MaxSteps  int64
+	Bound     string // human-readable bound of this harness
+	NoNative  bool   // uses verifrt.StubFunc: cannot run natively
+	Sched     bool   // schedule-dependent: a native run cannot force the interleaving
+	NoWitness bool   // witness paths are not replayed natively (see the bound text)
+	Witnesses int    // number of witness paths replayed natively (default 3)
 }
 
 // engineReplay re-executes one counterexample deterministically in the
@@ -227,6 +227,11 @@ func cmdCheck(args []string) int {
 		for what, n := range e.knownHits {
 			fmt.Printf("KNOWN-FINDING: property=%s %s (hit on %d paths of %s)\n", id, what, n, r.Fn)
 			ev.Known = append(ev.Known, what)
+		}
+		if os.Getenv("SYMGO_FAIL_FAST") != "" && ev.Violations > 0 {
+			// evaluation of seeded changes: the verdict is known
+			fmt.Println("fail-fast: remaining harnesses skipped after a confirmed violation")
+			break
 		}
 		// validate a few witness paths natively (engine vs real build)
 		if !r.NoNative && !r.NoWitness {
